@@ -187,6 +187,13 @@ def value_for(draw, p, type_, allow_long=True):
                 out[m["name"]] = [draw(value_for(p, m["type"], allow_long=False)) for _ in range(m["array"])]
         else:
             out[m["name"]] = draw(value_for(p, m["type"], allow_long=False))
+    for m in u["members"]:
+        if m["kind"] == "bit" and not m["hidden"]:
+            for h in u["members"]:
+                if h["kind"] == "atomic" and not h["hidden"] and not h["array"] and h["type"] in INT_BITS and \
+                        h["offset"] <= m["offset"] < h["offset"] + INT_BITS[h["type"]] // 8:
+                    # a BOOL aliasing a visible integer member: the two views of the same bit are kept consistent
+                    out[m["name"]] = bool(out[h["name"]] >> (8 * (m["offset"] - h["offset"]) + m["bit"]) & 1)
     return out
 
 
@@ -329,14 +336,16 @@ def invalidate(draw, p, r, op):
     elif kind == "index-range":
         idx = [0] * len(t["dims"])
         k = draw(st.integers(0, len(idx) - 1))
-        idx[k] = t["dims"][k] + draw(st.sampled_from([0, 1, 100]))
+        idx[k] = t["dims"][k] + draw(st.sampled_from([0, 1, 100, 0, 1, 1 << 16, 1 << 32, 5_000_000_000]))   # also beyond what a 32-bit element segment can hold
         r["idx"], r["path"], r["bit"], r["count"] = idx, [], None, None
         if op == "write":
             r["value"] = draw(value_for(p, t["type"], allow_long=False))
     elif kind == "count-range":
         total = p.n_elements(t)
         r["idx"], r["path"], r["bit"] = None, [], None
-        r["count"] = total + draw(st.sampled_from([1, 2, 50]))
+        # beyond the array, including counts that do not fit the 16-bit element-count field of the tag services
+        r["count"] = draw(st.sampled_from([total + 1, total + 2, total + 50, total + 1, total + 2, max(total + 1, 65536), max(total + 1, 70000)]
+                                          + ([1 << 32] if op == "read" else [])))
         if op == "write":
             v = draw(value_for(p, t["type"], allow_long=False))
             r["value"] = [v] * r["count"]
